@@ -35,8 +35,8 @@ type ServerCfg struct {
 	ReportPeriod   time.Duration // private sender/receiver report periods (0: default)
 	WriteQueueSize int
 	MaxPacketSize  int
-	Medias         int // medias of the served stream (default 2)
-	ExtraFormats   int // additional formats offered by the first media (default 0)
+	Medias         int  // medias of the served stream (default 2)
+	ExtraFormats   int  // additional formats offered by the first media (default 0)
 	Multicast      bool // offer multicast delivery (224.1.0.0/16, a free port pair)
 	BackChannel    int  // n > 0: a back-channel audio media is inserted at index n-1 of the served stream
 	AuthUser       string
@@ -53,14 +53,14 @@ type ServerCfg struct {
 
 // Bed is a running server with its stream.
 type Bed struct {
-	Cfg     ServerCfg
-	S       *gortsplib.Server
-	Stream  *gortsplib.ServerStream
-	Desc    *description.Session
-	Port    int
+	Cfg       ServerCfg
+	S         *gortsplib.Server
+	Stream    *gortsplib.ServerStream
+	Desc      *description.Session
+	Port      int
 	McastPort int // multicast RTP port (RTCP = +1) when Cfg.Multicast
-	UDPPort int
-	IP      string
+	UDPPort   int
+	IP        string
 
 	cur atomic.Pointer[vt.Trace]
 
